@@ -2,7 +2,7 @@
    bool, option, unit, list, prod, sumbool map to OCaml's; N/Z/positive/nat/byte stay Coq
    datatypes).  Not part of _CoqProject: compiled by ./check in _build/extract. *)
 From Coq Require Import extraction.Extraction ExtrOcamlBasic.
-From RS Require Import Base.Bytes Base.Dec Base.Endian Spec.Crc16 Spec.Slot Spec.Crc64 Model.Slot Model.Digest Model.RespCodec Model.Filter Model.CmdFilter Gen.CmdTable Model.Backlog Model.Pipe Model.Supervisor Model.Checkpoint.
+From RS Require Import Base.Bytes Base.Dec Base.Endian Spec.Crc16 Spec.Slot Spec.Crc64 Model.Slot Model.Digest Model.RespCodec Model.Filter Model.CmdFilter Gen.CmdTable Model.Backlog Model.Pipe Model.Supervisor Model.Checkpoint Model.Lzf Model.Rdb Spec.RdbFormat Spec.RdbRecords Gen.Rdb.
 Extraction Language OCaml.
 Set Extraction KeepSingleton.
 Extraction "model.ml"
@@ -16,4 +16,6 @@ Extraction "model.ml"
   new_ring read_at write close data_range reader_valid mem_align file_align
   pinit pstep pb_buffered pb_available
   get_slot_state node_state
-  load sender_write hset fetch.
+  load sender_write hset fetch
+  lzf_decompress load_all next_entry header read_string read_length skip_value enc_body enc_unit enc_value enc_string enc_len
+  logical_string records_of key_records meta0 hash_chunk_limit float_ok.
